@@ -104,6 +104,10 @@ def main():
         conf["checks"] = det
         conf["detected"] = any(d["exit"] == 1 and d["violation_lines"] > 0 for d in det.values())
     sh("git checkout -q -- . && git clean -fdq -e _build", cwd=CLONE)
+    old = meta.get("coordinator_confirmation", {})
+    for k in ("demo_before", "demo_after"):      # a re-run with --skip-demo keeps the recorded demonstration result
+        if k not in conf and k in old:
+            conf[k] = old[k]
     meta["coordinator_confirmation"] = conf
     json.dump(meta, open(meta_p, "w"), indent=1)
     print(json.dumps(conf, indent=1))
